@@ -67,6 +67,21 @@ func runC18(c *core.Ctx) {
 	} else {
 		c.Analysed(core.FuncName(sh))
 		ok, detail := c18guard(p, sh)
+		if ok {
+			// the given client becomes the one requests are sent through, on every path
+			min, max := core.DeepCount(p, sh, func(ins ssa.Instruction) bool {
+				st, isS := ins.(*ssa.Store)
+				if !isS || core.FieldKey(st.Addr) != "SimpleHTTPDef.client" {
+					return false
+				}
+				v, _ := core.Up(st.Val, nil)
+				prm, isP := core.ResolveIP(p, v).(*ssa.Parameter)
+				return isP && prm.Parent() == sh
+			}, nil)
+			if min != 1 || max != 1 {
+				ok, detail = false, fmt.Sprintf("SetHTTPClient stores the given client as the active one %d..%d times on a path (must be exactly once): later requests keep going through the previous client", min, max)
+			}
+		}
 		c.Check(ok, "R2", "SimpleHTTPDef.SetHTTPClient", p.Pos(sh.Pos()), detail, detail)
 	}
 	if dr := p.Method(p.Network, "SimpleHTTPDef", "DoRequest"); dr == nil {
